@@ -22,6 +22,7 @@ REPO = os.environ.get("RXRUST_REPO", "/repo")
 KDIR = os.path.join(VERIF, "contracts", "kani")
 TARGET = os.path.join(VERIF, "build", "kani-target")
 HARNESS_TIMEOUT = os.environ.get("VERIF_KANI_TIMEOUT", "240")
+THOROUGH_TIMEOUT = os.environ.get("VERIF_KANI_TIMEOUT_THOROUGH", "1200")
 
 
 def harness_files():
@@ -59,12 +60,13 @@ def harness_files():
                 j -= 1
             if is_proof:
                 harnesses.append(dict(name=m.group(1), tags=tags, bounded=bounded, doc=" ".join(doc)))
-        out.append(dict(file=f, name=os.path.basename(f)[:-3], target=tm.group(1),
+        tn = re.search(r"^//@ thorough-note:\s*(.*)$", txt, re.M)
+        out.append(dict(file=f, name=os.path.basename(f)[:-3], target=tm.group(1), thorough_note=tn.group(1).strip() if tn else None,
                         props=[x.strip() for x in pm.group(1).split(",") if x.strip()], harnesses=harnesses))
     return out
 
 
-def make_scratch(files):
+def make_scratch(files, tier="quick"):
     scratch = tempfile.mkdtemp(prefix="verif_kani_", dir="/tmp")
     dst = os.path.join(scratch, "repo")
     subprocess.run(["rsync", "-a", "--exclude", "target", "--exclude", ".git", REPO + "/", dst + "/"], check=True)
@@ -79,6 +81,13 @@ def make_scratch(files):
         os.makedirs(hdir, exist_ok=True)
         hcopy = os.path.join(hdir, hf["name"] + ".rs")
         shutil.copy(hf["file"], hcopy)     # playback tests are written next to the COPY, never into /verif
+        if tier == "thorough":
+            # deeper bounds for the thorough tier: declared textual substitutions in the harness header
+            # (`//@ thorough-subst: OLD ==> NEW`), applied to the scratch copy only
+            src_ = open(hcopy).read()
+            for old_, new_ in re.findall(r"^//@ thorough-subst:\s*(.*?)\s*==>\s*(.*?)\s*$", src_, re.M):
+                src_ = "\n".join(l if l.startswith("//@") else l.replace(old_, new_) for l in src_.split("\n"))
+            open(hcopy, "w").write(src_)
         with open(tgt, "a") as fh:
             fh.write("\n#[cfg(kani)]\nmod verif_kani_%s {\n  #![allow(unused)]\n  use super::*;\n  include!(\"%s\");\n}\n" % (hf["name"], hcopy))
     return scratch, dst, None
@@ -95,7 +104,7 @@ def run(pid, tier="quick", exclude=()):
                 wanted.append((hf, h))
     if not wanted:
         return [], None
-    scratch, dst, err = make_scratch(files)
+    scratch, dst, err = make_scratch(files, tier)
     results = []
     try:
         if err:
@@ -108,12 +117,12 @@ def run(pid, tier="quick", exclude=()):
         os.makedirs(TARGET, exist_ok=True)
         jpath = os.path.join(scratch, "kani.json")
         cmd = ["cargo", "kani", "-Z", "unstable-options", "-Z", "stubbing", "--output-format=terse", "-j", "8",
-               "--harness-timeout", HARNESS_TIMEOUT + "s", "--export-json", jpath]
+               "--harness-timeout", (THOROUGH_TIMEOUT if tier == "thorough" else HARNESS_TIMEOUT) + "s", "--export-json", jpath]
         for hf, h in wanted:
             cmd += ["--harness", "verif_kani_%s::%s" % (hf["name"], h["name"])]
         t0 = time.time()
         try:
-            p = subprocess.run(cmd, cwd=dst, env=env, capture_output=True, text=True, timeout=3000)
+            p = subprocess.run(cmd, cwd=dst, env=env, capture_output=True, text=True, timeout=3000 if tier != "thorough" else 9000)
             out = p.stdout + "\n" + p.stderr
         except subprocess.TimeoutExpired as e:
             out = "cargo kani timed out (3000 s)"
@@ -186,7 +195,7 @@ def run(pid, tier="quick", exclude=()):
             else:
                 reason = "no result for harness (%s)" % ("kani output missing" if not txt else "unparsed")
             results.append(dict(harness=h["name"], file=hf["name"], tags=sorted(h["tags"]), status=status,
-                                bounded=h["bounded"], time_s=float(tm_.group(1)) if tm_ else 0.0,
+                                bounded=(h["bounded"] + (" [thorough tier: %s]" % hf.get("thorough_note")) if (h["bounded"] and tier == "thorough" and hf.get("thorough_note")) else h["bounded"]), time_s=float(tm_.group(1)) if tm_ else 0.0,
                                 failed_checks=failed, output=(txt or out)[-4000:], reason=reason, doc=h["doc"]))
         # counterexamples for violated harnesses: concrete playback
         for r in results:
@@ -231,7 +240,7 @@ def run(pid, tier="quick", exclude=()):
 
 
 if __name__ == "__main__":
-    rs, note = run(sys.argv[1])
+    rs, note = run(sys.argv[1], sys.argv[2] if len(sys.argv) > 2 else "quick")
     print(note)
     for r in rs:
         print(r["harness"], r["status"], r["bounded"] or "", "%.1fs" % r["time_s"], r.get("reason", ""), r["failed_checks"])
